@@ -440,9 +440,8 @@ StepsEnd ==
                  seqSteps, layers, layerTodo, staged, phaseSet>>
 
 -----------------------------------------------------------------------------
-(* Emission.  With emit_step = 1 one row per batch.  Otherwise the rows of  *)
-(* the deadlines passed; the implementation delivers one (identical) row    *)
-(* per passed deadline, which the specification treats as one row.          *)
+(* Emission.  With emit_step = 1 one row per batch.  Otherwise one row when *)
+(* a deadline has passed, however many deadlines the batch passed.          *)
 
 EmitInitial ==
   /\ UNCHANGED structv
